@@ -39,7 +39,13 @@ TableOf(scn) ==
   LET keys == {<<t, pc, acc>> : t \in 1..scn.nt, pc \in 0..scn.len, acc \in 0..(scn.na - 1)}
   IN [k \in keys |-> scn.prog[k[1]][k[2] + 1][k[3] + 1]]
 
-CInit == Init /\ l = 1 /\ done = 0 /\ TLCSet(1, 1) /\ TLCSet(2, 0)
+\* the named actions of Pie.tla; register 10 + i counts the matched steps of action i (per-action coverage of the
+\* operational specification by the implementation's traces: an action never taken was never bound to the code)
+ActNames == <<"McStep", "ChkStep", "ChkReturn", "RootReturn", "ExecStep", "RequireReturn", "BuSched", "BuRun", "BuLoop",
+              "EasReturn", "McbStep", "RsnStep", "ExtSet", "SetFault", "BoomArm", "BoomClr", "StartSession", "EndSession",
+              "RootReq", "BuBegin">>
+
+CInit == Init /\ l = 1 /\ done = 0 /\ TLCSet(1, 1) /\ TLCSet(2, 0) /\ \A i \in DOMAIN ActNames : TLCSet(10 + i, 0)
 
 Reset ==
   /\ l <= Len(Rec) /\ Rec[l].ev = "reset"
@@ -63,13 +69,36 @@ EndOfRun ==
   /\ TLCSet(1, l') /\ TLCSet(2, done')
   /\ UNCHANGED vars
 
-Step ==
-  /\ l <= Len(Rec) /\ Rec[l].ev \notin {"reset", "end"}
-  /\ Next
+Fin(i) ==
   /\ Matches(out', l)
   /\ l' = l + Len(out')
   /\ TLCSet(1, IF l' > TLCGet(1) THEN l' ELSE TLCGet(1))
+  /\ TLCSet(10 + i, TLCGet(10 + i) + 1)
   /\ UNCHANGED done
+
+\* the disjuncts of Pie!Next, one by one (ChooseInit is replaced by Reset)
+Step ==
+  /\ l <= Len(Rec) /\ Rec[l].ev \notin {"reset", "end"}
+  /\ \/ McStep /\ Fin(1)
+     \/ ChkStep /\ Fin(2)
+     \/ ChkReturn /\ Fin(3)
+     \/ RootReturn /\ Fin(4)
+     \/ ExecStep /\ Fin(5)
+     \/ RequireReturn /\ Fin(6)
+     \/ BuSched /\ Fin(7)
+     \/ BuRun /\ Fin(8)
+     \/ BuLoop /\ Fin(9)
+     \/ EasReturn /\ Fin(10)
+     \/ McbStep /\ Fin(11)
+     \/ RsnStep /\ Fin(12)
+     \/ (\E r \in ResIds, v \in (-1)..(NV - 1) : ExtSet(r, v)) /\ Fin(13)
+     \/ (\E r \in ResIds, on \in BOOLEAN : SetFault(r, on)) /\ Fin(14)
+     \/ (\E t \in TaskIds, pc \in 0..LEN : BoomArm(t, pc)) /\ Fin(15)
+     \/ BoomClr /\ Fin(16)
+     \/ (\E probe \in BOOLEAN : StartSession(probe)) /\ Fin(17)
+     \/ EndSession /\ Fin(18)
+     \/ (\E t \in TaskIds : RootReq(t)) /\ Fin(19)
+     \/ BuBegin /\ Fin(20)
 
 CNext == Reset \/ EndOfRun \/ Step
 
@@ -78,5 +107,7 @@ CSpec == CInit /\ [][CNext]_cvars
 cview == <<st, ctl, prog, env, l, done>>
 
 \* the monitors must stay silent on conforming behaviours as well (they do in PieTrace; this ties both together)
-AllConsumed == PrintT(<<"CONFORM", TLCGet(1), TLCGet(2), Len(Rec)>>)
+AllConsumed ==
+  /\ PrintT(<<"CONFORM", TLCGet(1), TLCGet(2), Len(Rec)>>)
+  /\ PrintT(<<"ACTIONS", [i \in DOMAIN ActNames |-> <<ActNames[i], TLCGet(10 + i)>>]>>)
 =============================================================================
